@@ -48,7 +48,9 @@ def dedup(texts):
 ASCII_DRAW = "-~|!:+X*#oO_.,'`/\\()Vv^><="
 UNI_DRAW = "‾¯─–—┄│╎┊┆╲╱╳┼═□▏▕║∠⋀△▾▼▴▲▸◂▶►◀◄◆▪▁▂▃▄▅▆▇█⌊≠╪╫⊕○⦵●￮┌┐┘└├┤┬┴╭╮╰╯◜◝◟◞╔╗╚╝╒╓╬╦╩╠╣╞╡╤╥╖╙╜╕╛╘╢╟╧╨⤹"
 FULL = ASCII_DRAW + UNI_DRAW
-WIDE = "一二三中文字日本語かなカナ한글가나"   # East Asian Wide in every Unicode version
+# East Asian Wide in every Unicode version: CJK, kana, Hangul syllables; Hangul leading consonants (U+1100.., the
+# only wide block below U+2E80), fullwidth forms, and one supplementary-plane ideograph (four UTF-8 bytes)
+WIDE = "一二三中文字日本語かなカナ한글가나" + "\u1100\u1112\uff01\uff21\U00020000"
 LATIN = "éüñßçøåæ"
 CYRIL = "дфжяюы"
 
@@ -148,3 +150,62 @@ def mixed_corpus(r, n, tags=False):
 
 def shift_text(t, k, n):
     return "\n" * n + "\n".join(" " * k + line for line in t.split("\n"))
+
+
+def scene(r, words, wmax=24, hmax=12):
+    """a picture made of a few large shapes (long diagonals, parallel diagonals, boxes, nested boxes, long strokes)
+    with the given words dropped into cells that are still blank: inside, between and beside the shapes, so that a
+    word can lie in the bounding boxes of several separate shapes at once"""
+    W, H = r.randint(8, wmax), r.randint(4, hmax)
+    g = [[" "] * W for _ in range(H)]
+
+    slots = []       # places between two parallel strokes / under a long diagonal, tried first for the words
+
+    def put(x, y, ch):
+        if 0 <= x < W and 0 <= y < H:
+            g[y][x] = ch
+    for _ in range(r.randint(1, 4)):
+        kind = r.choice(["bs", "sl", "par", "par", "par", "box", "nest", "h", "v"])
+        x, y = r.randint(0, W - 2), r.randint(0, H - 2)
+        if kind in ("bs", "sl", "par"):
+            L = r.randint(3, max(H, 4))
+            ch = "\\" if kind == "bs" or (kind == "par" and r.random() < 0.5) else "/"
+            gap = r.randint(2, 5) if kind == "par" else 0
+            for i in range(L):
+                xx = x + i if ch == "\\" else x + L - 1 - i
+                put(xx, y + i, ch)
+                if gap:
+                    put(xx + gap, y + i, ch)
+                    slots.append((xx + 1, y + i))
+                elif i > 1:
+                    slots.append((xx + (2 if ch == "/" else -3), y + i))
+        elif kind in ("box", "nest"):
+            w, h = r.randint(3, 10), r.randint(1, 4)
+            for lvl in range(2 if kind == "nest" else 1):
+                x0, y0, w0, h0 = x + 2 * lvl, y + lvl, w - 4 * lvl, h - 2 * lvl
+                if w0 < 1 or h0 < 1 and lvl:
+                    break
+                for i in range(w0 + 2):
+                    put(x0 + i, y0, "-"); put(x0 + i, y0 + h0 + 1, "-")
+                for j in range(h0 + 2):
+                    put(x0, y0 + j, "|"); put(x0 + w0 + 1, y0 + j, "|")
+                for (cx, cy) in ((x0, y0), (x0 + w0 + 1, y0), (x0, y0 + h0 + 1), (x0 + w0 + 1, y0 + h0 + 1)):
+                    put(cx, cy, "+")
+        elif kind == "h":
+            for i in range(r.randint(3, W)):
+                put(x + i, y, "-")
+        else:
+            for j in range(r.randint(2, H)):
+                put(x, y + j, "|")
+    for wd in words:
+        for _try in range(20):
+            x, y = r.randint(0, max(W - len(wd), 0)), r.randint(0, H - 1)
+            if slots and _try < 3 and r.random() < 0.7:
+                x, y = r.choice(slots)
+            if not (0 <= x and 0 <= y < H):
+                continue
+            if all(x + i < W and g[y][x + i] == " " for i in range(len(wd))):
+                for i, ch in enumerate(wd):
+                    g[y][x + i] = ch
+                break
+    return "\n".join("".join(row).rstrip() for row in g)
